@@ -263,7 +263,7 @@ def r14e(run):
     for r in fa.cfg.nodes:
         if r.kind != "stmt" or not isinstance(r.ast, ast.Return) or not fa.cfg.is_live(r):
             continue
-        if not strip or not fa.cfg.can_reach(strip[0], r, kinds=(N,)):
+        if not strip or not fa.cfg.can_reach(strip[0], r):
             continue
         v = r.ast.value
         # value parsed from the stripped text?
